@@ -147,7 +147,7 @@ func rmodCandidates(files map[string]string, req c18Req) (cands []string, so boo
 }
 
 func runC18(c *Ctx) {
-	nTrees := c.N(1000, 15000)
+	nTrees := c.N(1000, 60000)
 	root := NewRng(c.Seed).Fork(18)
 	parallel(nTrees, 14, func(ti int) {
 		r := root.Fork(uint64(ti))
